@@ -208,6 +208,32 @@ def apply_edit(continuum, op):
         continuum.reset_bounds()
 
 
+_corpus = {}
+
+
+def hard_mip_cases(ctx, which="partition", limit=None, min_gap=2e-3):
+    """Continua whose alignment programme has an integrality gap (LP relaxation strictly below the integer optimum,
+    found off-line by selftest/mine_hard_mip.py with scipy/HiGHS on random dense / long-overlap / mixed-duration /
+    nested continua: about 1 random continuum in 50).  A MIP solver has to branch on them, so an early stop, a relative
+    gap, a rounding heuristic taken for the answer or a secondary criterion shows as a dearer alignment here, where it
+    never does on instances whose relaxation is integral.  The corpus only selects *inputs*; every case is judged at run
+    time by the same oracles as any other case.  Cases are dealt round-robin to the shards."""
+    import json
+    import os
+    if "cases" not in _corpus:
+        path = os.path.join(os.path.dirname(os.path.dirname(os.path.abspath(__file__))), "corpus", "hard_mip.json")
+        with open(path) as f:
+            _corpus["cases"] = json.load(f)["cases"]
+    sel = [c for c in _corpus["cases"] if c["gap"][which]["rel_gap"] >= min_gap]
+    # corpus order is the (random) order of discovery; the run's seed rotates it, so that seed sweeps go through all of it
+    k = (int(getattr(ctx, "seed", 0)) * 37) % max(1, len(sel))
+    sel = sel[k:] + sel[:k]
+    mine = [c for i, c in enumerate(sel) if i % ctx.nshards == ctx.shard]
+    if limit is not None:
+        mine = mine[:limit]
+    return [{"continuum": dict(c["continuum"], family="integrality-gap"), "dissim": c["dissim"]} for c in mine]
+
+
 def near_tie_cases(rng, ks, u=8.0):
     """3-annotator continua in which two annotators agree on a unit and the third places the same unit at a distance x
     swept through the point where "one unitary alignment of three" and "a pair plus a singleton" cost the same with the
